@@ -36,6 +36,8 @@ pub fn run(rep: &mut StageReport, tier: &str, seed: u64) {
         ("ab", "topic"), ("abc", "to"), ("", ""), ("abc", ""), ("", "abc"), ("a/b", "topic"), ("abc", "to/pic"), ("selium", "topic"), ("seliumx", "topic"), ("selium-1", "abc"),
         ("abc def", "topic"), ("abc", "top!c"), ("abc\n", "topic"), ("abc", "topic\0"), ("é", "topic"), ("abc", "\u{1F4A5}\u{1F4A5}\u{1F4A5}"), ("a.b", "c.d"), ("..", ".."), ("abc", "../etc"),
         ("x", "y"), ("abc", "def"), ("abc_1", "DEF-2"), ("Selium", "topic"), ("xselium", "topic"),
+        // the reserved word is reserved for the *namespace*: as (the start of) a topic part it is legal
+        ("tenant-a", "selium-metrics"), ("abc", "selium"), ("tenant-b", "seliumx"), ("def", "selium_1"),
     ] {
         pairs.push((a.to_string(), b.to_string()));
     }
@@ -60,6 +62,7 @@ pub fn run(rep: &mut StageReport, tier: &str, seed: u64) {
         let b = mk(&mut rng);
         pairs.push((a, b));
     }
+    let mut second_pass_from = usize::MAX;
     let results = rt.block_on(async {
         let server = match start_server(&certs) {
             Ok(s) => s,
@@ -135,6 +138,38 @@ pub fn run(rep: &mut StageReport, tier: &str, seed: u64) {
                 return Err("isolation: precondition not reached (a subscriber never saw its own topic's traffic)".into());
             }
         }
+        // ---- second pass: the verdict on a name must not depend on what the server has accepted before ----
+        // every rejected name again, plus names recombined from the parts of names that were accepted
+        let accepted: Vec<(String, String)> = out.iter().filter(|x| matches!(x.4, Ok(Some(Frame::Ok)))).map(|x| (x.0.clone(), x.1.clone())).collect();
+        let mut second: Vec<(String, String)> = out.iter().filter(|x| x.3 == Zone::MustReject).map(|x| (x.0.clone(), x.1.clone())).collect();
+        for (a, b) in &accepted {
+            second.push((b.clone(), a.clone()));
+        }
+        let mut parts: Vec<String> = accepted.iter().flat_map(|(a, b)| [a.clone(), b.clone()]).filter(|p| p.to_lowercase().contains("selium") || p.len() <= 4).collect();
+        parts.sort();
+        parts.dedup();
+        parts.truncate(14);
+        for a in &parts {
+            for b in &parts {
+                second.push((a.clone(), b.clone()));
+            }
+        }
+        second.sort();
+        second.dedup();
+        let first_pass = out.len();
+        for (i, (ns, tp)) in second.iter().enumerate() {
+            let kind = (i + 1) % 4;
+            let zone = if ns.contains('/') || tp.contains('/') { Zone::MustReject } else { classify(&format!("/{}/{}", ns, tp)) };
+            if opened >= 60 {
+                conn = raw_connect(server.addr, &certs).await.map_err(|e| e.to_string())?;
+                opened = 0;
+            }
+            opened += 1;
+            let t = TopicName::_create_unchecked(ns, tp);
+            let r = conn.open(reg(kind, t), Duration::from_secs(6)).await.map(|(_, f)| f).map_err(|e| e.to_string());
+            out.push((ns.clone(), tp.clone(), kind, zone, r));
+        }
+        second_pass_from = first_pass;
         server.stop();
         Ok((out, leaks, iso_msgs))
     });
@@ -156,6 +191,8 @@ pub fn run(rep: &mut StageReport, tier: &str, seed: u64) {
             (Zone::MustReject, Ok(Some(Frame::Ok))) => Some(("invalid-name-accepted".into(), format!("invalid wire name ({:?},{:?}) registered as {}: the server answered Ok and created the topic", ns, tp, kinds[kind]))),
             (Zone::MustReject, other) => Some(("invalid-name-not-answered".into(), format!("invalid wire name ({:?},{:?}) registered as {}: no invalid-topic error, got {:?}", ns, tp, kinds[kind], other))),
             (Zone::MustAccept, Ok(Some(Frame::Ok))) => None,
+            // refused because the topic already exists with the other messaging pattern: the name itself passed
+            (Zone::MustAccept, Ok(Some(Frame::Error(e)))) if e.code == selium_protocol::error_codes::TOPIC_KIND_MISMATCH => None,
             (Zone::MustAccept, other) => Some(("valid-name-refused".into(), format!("valid wire name ({:?},{:?}) registered as {}: got {:?}", ns, tp, kinds[kind], other))),
             (Zone::Tolerated, Ok(Some(Frame::Ok))) | (Zone::Tolerated, Ok(Some(Frame::Error(_)))) => None,
             (Zone::Tolerated, other) => Some(("name-not-answered".into(), format!("wire name ({:?},{:?}): got {:?}", ns, tp, other))),
@@ -168,6 +205,7 @@ pub fn run(rep: &mut StageReport, tier: &str, seed: u64) {
                 }
             }
             Some((sig, detail)) => {
+                let (sig, detail) = if i >= second_pass_from { (format!("{}/after-other-registrations", sig), format!("{} — second pass, after the server had accepted other names (among them names made of the same parts)", detail)) } else { (sig, detail) };
                 let replay = write_replay("C07", &sig, i as u64, json!({"property": "C07", "namespace": ns, "topic": tp, "detail": detail}));
                 rep.violation(Violation { signature: format!("C07/server/{}", sig), detail, replay });
             }
@@ -190,5 +228,5 @@ pub fn run(rep: &mut StageReport, tier: &str, seed: u64) {
     rep.count("wire_names_tolerated", zone_counts[2]);
     rep.count("isolation_messages_published", iso_msgs);
     rep.count("isolation_name_groups", 5);
-    rep.rule = "raw registrations of all four kinds carrying (namespace, topic) pairs built with the unchecked constructor: names the reference predicate rejects must be answered with Error{INVALID_TOPIC_NAME}, valid names with Ok; plus 5 groups of 4 distinct valid names that collide under sloppy keying, each publishing tagged messages concurrently — a tag seen on another name refutes isolation; distinct = distinct (namespace, topic, kind)".into();
+    rep.rule = "raw registrations of all four kinds carrying (namespace, topic) pairs built with the unchecked constructor: names the reference predicate rejects must be answered with Error{INVALID_TOPIC_NAME}, valid names with Ok; a second pass on the same server re-submits every rejected name and names recombined from the parts of accepted names (the verdict must not depend on history); plus 5 groups of 4 distinct valid names that collide under sloppy keying, each publishing tagged messages concurrently — a tag seen on another name refutes isolation; distinct = distinct (namespace, topic, kind)".into();
 }
